@@ -92,6 +92,20 @@ def search_group(seed, n):
             tmp[:] = np.asarray(c)
             for made in (a.inverse, a + b, a - b, a.copy()):
                 np.asarray(made)[...] = 7.25
+            # two results alive at once: what an operator returned must not change when the operator is used again
+            if cname in ("PoseSE2", "PoseSE3"):
+                Pq = PoseR2 if cname == "PoseSE2" else PoseR3
+                dq = 2 if cname == "PoseSE2" else 3
+                x1 = Pq([rng.uniform(-5, 5) for _ in range(dq)])
+                x2 = np.array([rng.uniform(-5, 5) for _ in range(dq)])
+                held = [a + x1, a + b, a - b, a.inverse, a + x2]
+                held_bits = [np.asarray(h_).tobytes() for h_ in held]
+                for _ in (b + x2, b + x1, c + b, c - a, c.inverse, b + (a + x1)):
+                    pass
+                ev += 1
+                for hi, (h_, hb) in enumerate(zip(held, held_bits)):
+                    if np.asarray(h_).tobytes() != hb:
+                        return dict(kind="group_law", cls=cname, law="result_overwritten_by_later_call", index=hi, a=np.asarray(a).tolist(), b=np.asarray(b).tolist(), c=np.asarray(c).tolist(), lhs=np.asarray(h_).tolist(), rhs=[]), ev
             checks = [
                 ("oplus_is_matrix_product", H(a + b), H(a) @ H(b)),
                 ("ominus_is_inverse_oplus", H(a - b), np.linalg.inv(H(b)) @ H(a)),
